@@ -181,7 +181,8 @@ def geometry_edits(spec, ds):
         hidden = [k for k in var.attrs if str(k).startswith("_")]
         if hidden and var.dtype.kind in "iu":
             attrs = dict(var.attrs)
-            attrs[hidden[0]] = var.dtype.type(int(attrs[hidden[0]]) - 7)
+            old_value = int(attrs[hidden[0]])
+            attrs[hidden[0]] = var.dtype.type(old_value - 7 if old_value >= 7 else old_value + 7)
             yield f"attr_change_underscore:{name}", replace_variable(
                 ds, name, xarray.Variable(var.dims, var.values, attrs, var.encoding))
             break
@@ -249,6 +250,20 @@ def check_spec(spec, ctx):
             ctx.label("geometry:" + label.split(":")[0])
             ctx.check(got != base, "C16.sensitivity",
                       lambda: f"geometry edit {label!r} did not change the key of a {spec['conv']} dataset")
+        if spec["conv"] in ("cf1d", "cf2d"):
+            # two different names that merely LOOK alike (the same letters in composed and in
+            # decomposed unicode form, a superscript digit and the plain digit) are two names
+            n = spec["geom"]["names"]
+            if n["lat"] not in ds.dims:
+                var = ds.variables[n["lat"]]
+                for tag, (one, two) in {"composed_vs_decomposed": ("\u00e9", "e\u0301"),
+                                        "superscript_vs_digit": ("\u00b2", "2")}.items():
+                    a = replace_variable(ds, n["lat"], var, new_name=n["lat"] + one)
+                    b = replace_variable(ds, n["lat"], var, new_name=n["lat"] + two)
+                    ctx.check(key_of(spec, a) != key_of(spec, b), "C16.sensitivity",
+                              lambda: f"geometry variable named {n['lat'] + one!r} in one dataset and "
+                              f"{n['lat'] + two!r} in the other ({tag}): same key")
+                kinds.add("unicode_names")
         for how in ("name", "module"):
             got = key_of(spec, ds, subclass=how)
             ctx.check(got != base, "C16.sensitivity",
